@@ -323,6 +323,78 @@ def run(tier, seed, replay=None):
                                  'what': 'a suggested keyword/symbol does not let the parser get past the error position'})
     stats['caret_wrong'] = ncaret
     stats['suggestion_unsound'] = nsug
+    # ---- the lexer's "Illegal character" report: Model/LexErr.report (theorem C19_illegal_character_report) against the text of
+    # LexError, and a judge on the implementation's own message (position arithmetic written a second way)
+    lrows = []
+    bases = [t for t in inputs if t.strip()]
+    lex_texts = ['select a # b', 'select a # b\nfrom t', 'select a\nfrom t # x', 'select a\nfrom t\nwhere # x', "select 'x\ny' # b", 'select a\n\n# b', '# x', '\n#',
+                 'select a /* c \n c */ # x', "select 'a\nb\nc'\n, d # e", 'select `a\nb` # c', "select 1 -- c\n# x", 'select a\r\nfrom # t', "select 'é' # x", '#\nselect 1',
+                 'select\n\n\n a ^ b', 'select a from t where b = "x\ny" and c | d'] if not replay else []
+    for i in range(150 if tier == 'quick' else 3000):
+        if replay:
+            break
+        b = rng.choice(bases)
+        if rng.random() < 0.4:
+            b = b.replace(' ', '\n', rng.randint(1, 3)) if rng.random() < 0.5 else '\n'.join(rng.choice(bases) for _ in range(rng.randint(2, 4)))
+        j = rng.randrange(len(b) + 1)
+        lex_texts.append(b[:j] + rng.choice(['#', '^', '|', '&', '\\', 'é', '#', ' # ', '\n#']) + b[j:])
+    if replay and 'lexer_text' in rp:
+        lex_texts = [rp['lexer_text']]
+    for txt in lex_texts:
+        try:
+            parse_sql(txt, D)
+            continue
+        except LexError as e:
+            msg, idx = str(e), e.error_index
+        except Exception:
+            continue
+        stripped = re.sub(r'[\s;]+$', '', txt)
+        lrows.append((txt, stripped, idx, msg))
+    stats['lexerror_reports'] = len(lrows)
+    stats['lexerror_multi_line'] = sum(1 for r in lrows if '\n' in r[1])
+    lfail = 0
+    for txt, stripped, idx, msg in lrows:
+        ml = msg.split('\n')
+        ok = 0 <= idx < len(stripped) and ml[0] == f'Illegal character {stripped[idx]!r}:'
+        if ok:
+            ln = stripped.count('\n', 0, idx)
+            col = idx - (stripped.rfind('\n', 0, idx) + 1)
+            src = stripped.split('\n')
+            want = (['>' + src[ln - 1]] if ln > 0 else []) + ['>' + src[ln], '-' * (col + 1) + '^']
+            ok = ml[1:] == want
+        if not ok:
+            lfail += 1
+            if lfail <= 3:
+                R.violation({'text': txt, 'lexer_text': txt, 'index_of_the_illegal_character': idx, 'message': msg,
+                             'what': 'the "Illegal character" report does not show the line of the error (and the line before it) with '
+                                     'the caret under the offending character'})
+    lshard = 200
+    lnames = []
+    for k in range(0, len(lrows), lshard):
+        name = f'C19_lex_{k // lshard}'
+        ls = ['From Coq Require Import NArith List Bool.', 'From MSV Require Import Lib.PyStr Model.LexErr.', 'Import ListNotations.',
+              'Local Open Scope N_scope.',
+              'Fixpoint sl_eqb (a b : list str) : bool := match a, b with [], [] => true | x :: a, y :: b => str_eqb x y && sl_eqb a b | _, _ => false end.',
+              'Definition bad {A} (f : A -> bool) (l : list A) : list nat :=',
+              '  (fix go (i : nat) (l : list A) := match l with [] => [] | x :: r => if f x then go (S i) r else i :: go (S i) r end) O l.',
+              'Definition cases : list (str * nat * list str) := [',
+              ';\n'.join(f' ({nl(st)}, {idx}%nat, [{"; ".join(nl(x) for x in msg.split(chr(10))[1:])}])' for _, st, idx, msg in lrows[k:k + lshard]),
+              '].', "Eval vm_compute in bad (fun c => let '(t, i, body) := c in sl_eqb (report t i) body) cases."]
+        write_if_changed(GEN / f'{name}.v', '\n'.join(ls) + '\n')
+        lnames.append((k, name))
+    lres = compile_many([n for _, n in lnames])
+    lmism = []
+    for (k, name), (rc, out) in zip(lnames, lres):
+        if rc != 0:
+            broken.append(BrokenTie(f'shard {name} does not compile', out[-800:]))
+            continue
+        vals = coq_eval_lists(out)
+        lmism += [k + i for i in parse_coq_list(vals[-1])]
+    R.obligation(f'lexer report correspondence: Model/LexErr.report = str(LexError) on {len(lrows)} texts with an illegal character '
+                 f'({stats["lexerror_multi_line"]} of them multi-line)', not lmism and bool(lrows or replay))
+    if lmism and not lfail:
+        txt, stripped, idx, msg = lrows[lmism[0]]
+        broken.append(BrokenTie(f'lexer report model disagrees with the implementation on {txt!r}', f'implementation message: {msg!r}'))
     for e in broken:
         if not any(not nf for _, nf in R.violations):
             R.violation({'what': e.what, 'detail': e.detail, 'theorem': 'C19 correspondence'}, nofail=True)
